@@ -516,3 +516,50 @@ Proof.
   destruct (Inv_HInv_adm cs router0 Inv0 HInv0 H1) as (A & B).
   destruct (Inv_HInv_adm cs' router0 Inv0 HInv0 H2) as (A' & B'). now apply same_survivors_inv.
 Qed.
+
+(* ------------------------------------------------------------------ *)
+(* RadiDict._routes_iter lists exactly the routes the tree holds         *)
+(* ------------------------------------------------------------------ *)
+Lemma iter_at_routes yh : forall n, wf n -> forall acc s d,
+  (exists h, In (s, (Some d, h)) (iter_at yh n acc)) <->
+  (exists p nm, In (p, (d, nm)) (paths n) /\ s = acc ++ rstr p).
+Proof.
+  induction n as [key d0 nm0 f h0 kids IH] using node_ind'. intros Hw acc s d.
+  pose proof (wf_inv _ _ _ _ _ _ Hw) as (W1 & W2 & W3 & W4).
+  cbn [iter_at]. rewrite paths_node. split.
+  - intros (h & Hin). apply in_app_or in Hin. destruct Hin as [Hin|Hin].
+    + apply in_flat_map in Hin. destruct Hin as (k & Hk & Hin).
+      rewrite Forall_forall in IH, W1, W2.
+      destruct (proj1 (IH k Hk (W1 k Hk) (acc ++ nkey k) s d) (ex_intro _ h Hin)) as (p & nm & A & ->).
+      exists (key_pcs k ++ p), nm. split.
+      * apply in_or_app. right. apply in_kids_entries. exists k. split; [exact Hk|]. apply in_kid_entries. eauto.
+      * now rewrite rstr_app, (rstr_key k (W2 k Hk)), app_assoc.
+    + destruct d0 as [x|]; simpl in Hin.
+      * destruct Hin as [Hin|[]]. injection Hin as <- <- <-. exists [], nm0. split; [now left | now rewrite app_nil_r].
+      * destruct (yh && _); [|destruct Hin]. destruct Hin as [Hin|[]]. discriminate.
+  - intros (p & nm & Hin & ->). apply in_app_or in Hin. destruct Hin as [Hin|Hin].
+    + destruct d0 as [x|]; [|destruct Hin]. destruct Hin as [Hin|[]]. injection Hin as <- <- <-.
+      exists h0. apply in_or_app. right. simpl. rewrite app_nil_r. now left.
+    + apply kid_of_entry in Hin. destruct Hin as (k & p0 & Hk & -> & Hp0).
+      rewrite Forall_forall in IH, W1, W2.
+      destruct (proj2 (IH k Hk (W1 k Hk) (acc ++ nkey k) ((acc ++ nkey k) ++ rstr p0) d)) as (h & Hh).
+      { exists p0, nm. auto. }
+      exists h. apply in_or_app. left. apply in_flat_map. exists k. split; [exact Hk|].
+      now rewrite rstr_app, (rstr_key k (W2 k Hk)), app_assoc.
+Qed.
+
+(* after any history: iterating the whole tree yields exactly the indexed routes *)
+Theorem routes_iter_lemma : forall (cs : list cmd) yh s d,
+  Forall hist_cmd cs ->
+  let R := exec_cmds router0 cs in
+  (exists h, In (s, (Some d, h)) (routes_iter (tree R) [] yh)) <-> al_get (routes R) s = Some d.
+Proof.
+  intros cs yh s d Hcs R. pose proof (Inv_hist cs router0 Inv0 Hcs) as HI. fold R in HI.
+  unfold routes_iter. destruct (tree R) as [key d0 nm0 f h0 kids] eqn:Et. cbn [find_sub_node].
+  rewrite <- Et. rewrite (iter_at_routes yh (tree R) (inv_wf R HI) [] s d). split.
+  - intros (p & nm & Hin & ->). apply (inv_paths R HI) in Hin. destruct Hin as (p0 & d1 & rt & A & B & C).
+    unfold entry_of in C. injection C as -> <- _. simpl. now rewrite rstr_fpat.
+  - intros Hg. destruct (inv_routes R HI s d Hg) as (rt & B & _).
+    exists (fpat s (r_filters rt)), (r_names rt). split; [|simpl; now rewrite rstr_fpat].
+    apply (inv_paths R HI). exists s, d, rt. auto.
+Qed.
